@@ -220,7 +220,31 @@ func main() {
 	seed := flag.Int("seed", 0, "echoed into the evidence; the analysis is deterministic")
 	list := flag.Bool("list", false, "list registered properties as JSON")
 	dumpFuncs := flag.Bool("dump-funcs", false, "print the functions declared in the repository (to regenerate BASELINE_FUNCS.json)")
+	dumpProv := flag.String("dump-prov", "", "debugging aid: relpkg:Recv:Name - print the provenance of the expressions of that function (with -normalised: after the normalisation pre-pass)")
+	normalised := flag.Bool("normalised", false, "with -dump-prov: analyse the normalised program")
 	flag.Parse()
+	if *dumpProv != "" {
+		parts := strings.Split(*dumpProv, ":")
+		c := newCtx("", "quick", *repo, *verif)
+		c.load("", nil)
+		if *normalised {
+			if ov, _ := c.normalize(nil); ov != nil {
+				c = newCtx("", "quick", *repo, *verif)
+				c.load("", ov)
+			}
+		}
+		fn := c.Func(parts[0], parts[1], parts[2])
+		ast.Inspect(fn.Body, func(n ast.Node) bool {
+			if e, ok := n.(ast.Expr); ok {
+				if _, isLit := e.(*ast.FuncLit); !isLit {
+					g := fn.enclosing(e)
+					fmt.Printf("%s: %-40s %s\n", c.pos(e.Pos()), types.ExprString(e), g.Prov(e))
+				}
+			}
+			return true
+		})
+		return
+	}
 	if *dumpFuncs {
 		c := newCtx("", "quick", *repo, *verif)
 		c.load("", nil)
@@ -316,11 +340,17 @@ func runProp(pd *propDef, tier, repo, verif string, seed int) int {
 		var ov map[string][]byte
 		var nlog []string
 		func() {
-			defer func() { recover() }()
+			defer func() {
+				if r := recover(); r != nil {
+					nlog = append(nlog, fmt.Sprintf("normalisation abandoned: %v", r))
+					ov = nil
+				}
+			}()
 			nc := newCtx(pd.ID, tier, repo, verif)
 			nc.load("", nil)
 			ov, nlog = nc.normalize(nil)
 		}()
+		adopted := false
 		if ov != nil {
 			c2 := analyse(ov, false)
 			for _, l := range nlog {
@@ -329,6 +359,12 @@ func runProp(pd *propDef, tier, repo, verif string, seed int) int {
 			c2.Note("decided on the normalised program (helpers unknown to the baseline inlined); the tree as written had %d undischarged obligations", nv)
 			if unknownViolations(c2) < nv {
 				c = c2
+				adopted = true
+			}
+		}
+		if !adopted {
+			for _, l := range nlog {
+				c.Note("normalisation (not adopted): %s", l)
 			}
 		}
 	}
